@@ -183,6 +183,11 @@ def domains():
                            par("hertz_para", E__min=-np.inf), par("hertz_para", contact_point__max=0.0),
                            par("hertz_para", contact_point__min=0.0), par("hertz_para", baseline__max=0.0),
                            par("hertz_para", baseline__expr="E*1e-12"),
+                           # limits of a CONSTRAINED parameter are effective too (the evaluated expression is
+                           # clipped to them)
+                           par("hertz_para", baseline__expr="E*1e-12", baseline__max=1e-9),
+                           par("hertz_para", baseline__expr="E*1e-12", baseline__min=1e-10),
+                           par("hertz_para", baseline__expr="E*1e-12", baseline__min=1e-10, baseline__max=1e-9),
                            par("hertz_para", contact_point__value=1e-7),
                            par("hertz_para", nu__value=0.4)],
         "preprocessing": [[], ["compute_tip_position"], ["compute_tip_position", "correct_tip_offset"],
